@@ -45,7 +45,7 @@ class Collector:
             self.res.ob('R-PANIC', name, False, 'analysis failed: %s' % e, where_of(self.facts, path), key='R-PANIC:analysis:' + name)
             return []
         self.res.absorb(it)
-        for o in outs:
+        for o in sem_iter(outs, include_loopback=True):
             self.paths += 1
             for ob in o.obligations:
                 self.visited.add(ob.key)
@@ -175,7 +175,7 @@ def glide_entries(col, facts):
     S = float_sym(st, 'S', FS_MIN, FS_MAX)
     outs = col.run('GlideProcessor::new', it, st, G.GP + '::new', None, [S])
     tmpl, ctx0 = None, None
-    for o in outs:
+    for o in sem_iter(outs):
         if o.status == 'returned' and isinstance(o.ret, StructV):
             tmpl, ctx0 = o.ret, o.ctx
     if tmpl is None:
